@@ -84,6 +84,11 @@ def step (toks : List String) (impl : String) : Res :=
   | some "offersilent" =>
     let limit := kvNat toks "limit"
     { model := s!"err free={limit}", monitor := if kv it "free" != toString limit then ["slot_returned_no_reply"] else [], tags := ["offersilent"] }
+  | some "offerunsendable" =>
+    -- an offer that cannot be encoded or gets no reply: whatever it returns, the slot is back
+    let limit := kvNat toks "limit"
+    { model := "", skipCompare := true, monitor := if kv it "free" != toString limit then ["slot_returned_" ++ kv toks "kind"] else [],
+      tags := ["offerunsendable", kv toks "kind", it.headD "?"] }
   | some "gossipq" =>
     let limit := kvNat toks "limit"
     let full := kv toks "full" == "1"
